@@ -37,6 +37,7 @@ pub ghost struct World {
     pub hard_faults: nat,              // calls that failed for a reason the state does not explain
     pub maintained: nat,               // number of completed prune runs (for C10 ordering)
     pub published: nat,                // number of publish steps (rename/link onto an entry)
+    pub listed: nat,                   // directory items returned to us by readdir so far
 }
 
 pub open spec fn ns_per_sec() -> int { 1_000_000_000 }
@@ -275,6 +276,7 @@ impl World {
         &&& self.opens >= old.opens
         &&& self.published >= old.published
         &&& self.maintained >= old.maintained
+        &&& self.listed >= old.listed
     }
 
     /// Only the inode `ino` may differ, and only as described by `f`.
